@@ -41,6 +41,14 @@ def representable (sep : Nat) (d : Doc) : Bool :=
   regroup ((ks.map (·.1.length)).foldl max 0 + 1) 0 ks == ks &&
   d.all (fun e => tagPath (ks.map (·.1)) (e.1.map (·.key)) == e.1)
 
+/-- No flattened key denotes a path that is a prefix of (or equal to) another key's path. When two
+do (possible only when a key of the document itself contains the separator, e.g. {"a":1,"a.b":2}
+under "."), CopyUnflattened is "best-effort" (PutIndexed overwrites or gives up): outside the model. -/
+def conflictFree (sep : Nat) (fr : Rec) : Bool :=
+  let ps := fr.map fun p => keyPath sep p.1
+  let ips := (List.range ps.length).zip ps
+  ips.all fun a => ips.all fun b => a.1 == b.1 || !(a.2.isPrefixOf b.2)
+
 /-- `flat <sep> <doc> | <doc as built> <flat record> <doc after unflatten>` -/
 def flat : Handler
   | [sepH, _], impl =>
@@ -54,6 +62,9 @@ def flat : Handler
       -- the property: a representable record comes back unchanged
       let spec := if representable sep built && unS != builtS then some ("-", "the record back unchanged: " ++ builtS) else none
       -- flattening an EMPTY record or one whose every value is scalar is the identity: shown as is
+      if !conflictFree sep fr then
+        pure { model := impl, spec, unmodelled := true }
+      else
       pure { model := if flatS == Rec.showList [fr] && unS == showDoc un then impl else model, spec }
     | _ => some { model := impl, spec := if impl == "panic" then some ("-", "no panic") else none, unmodelled := true }
   | _, _ => none
